@@ -30,7 +30,7 @@ class Faulty(object):
         c["n"] += 1
         c["events"].append("e")
         if c["n"] == c["fail_at"]:
-            raise Boom("evaluation %d" % c["n"])
+            raise c.get("exc", Boom)("evaluation %d" % c["n"])
 
     def __call__(self, r):
         self._tick()
@@ -117,20 +117,23 @@ def check(run):
             # not the buffered shape: is the property violated? enumerate and see
             run.tie_broken("correspondence", "Atsim.traceBuffered vs %s writer" % target, "event sequence of a fault-free run is %s (evaluations e, writes w), the model says %s" % (compress(skeleton), compress(mo["trace"])))
         nbad = 0
-        for k in range(1, total + 1):
-            ctl = dict(n=0, fail_at=k, events=[])
+        # every evaluation position x every kind of failure: an ordinary exception, and StopIteration - which a writer that drives its loop with an
+        # iterator over the evaluations (map, generator expression, zip) would take for the END of the data and silently truncate the table
+        for k, exc in [(k, exc) for k in range(1, total + 1) for exc in (Boom, StopIteration)]:
+            ctl = dict(n=0, fail_at=k, events=[], exc=exc)
             tab, binary = build(target, shape, ctl)
             rec = Recorder(ctl, binary)
             raised = False
             try:
                 tab.write(rec)
-            except Boom:
+            except (Boom, StopIteration, RuntimeError):
                 raised = True
-            run.case(key=(target, shape, k), kind="fault/" + target, sample=dict(target=target, shape=shape, k=k, of=total) if k == 2 and target in ("LAMMPS", "GULP") else None)
+            run.case(key=(target, shape, k, exc.__name__), kind="fault/" + target, sample=dict(target=target, shape=shape, k=k, of=total) if k == 2 and target in ("LAMMPS", "GULP") else None)
             run.traces += 1
             left = rec.content()
             if not raised:
-                run.fail("fault-swallowed", "target %s: the failure of evaluation %d of %d did not propagate out of write()" % (target, k, total), dict(target=target, shape=shape, k=k))
+                run.fail("fault-swallowed", "target %s: the failure (%s) of evaluation %d of %d did not propagate out of write(); %d characters were written" % (target, exc.__name__, k, total, len(left)),
+                         dict(target=target, shape=shape, k=k, exception=exc.__name__))
                 break
             if len(left) == 0 and raised:
                 # the caller catches the error and calls write() again on the same object (the fault is gone): whole table or nothing
